@@ -139,11 +139,22 @@ def run(tier, seed):
         vp.run_subject([os.path.join(bd, "eng_conc"), "--kind", kind, "--workers", str(workers), "--tasks", str(tasks),
                 "--runs", str(runs), "--seed", str(seed * 100 + i), "--out", tr], timeout=3000)
         traces.append((tr, kind, f"{kind} workers={workers} tasks={tasks}"))
-    if not quick:
-        tr = os.path.join(wd, "conc_fan1100.ndjson")
-        vp.run_subject([os.path.join(bd, "eng_conc"), "--kind", "fanin", "--fan", "1100", "--workers", "16",
-                "--tasks", "64", "--runs", "2", "--phases", "1", "--seed", str(seed), "--out", tr], timeout=3000)
-        traces.append((tr, "fanin", "fanin 1100 workers=16"))
+    # fan-in far above the 1024-element threshold of the callee -> callers set, in memory and over
+    # DbBacked<MemKv> (the set is rebuilt from the store through the spill path): judged by the light
+    # trace spec (EngineObsLite: user values, double execution, overlap), linear in the trace length
+    wide = []
+    for cfgname in ("mem", "kv"):
+        tr = os.path.join(wd, f"conc_fan1100_{cfgname}.ndjson")
+        vp.run_subject([os.path.join(bd, "eng_conc"), "--kind", "fanin", "--fan", "1100", "--cfg", cfgname,
+                        "--workers", "8" if quick else "16", "--tasks", "32" if quick else "64",
+                        "--runs", "1" if quick else "3", "--phases", "2", "--seed", str(seed), "--out", tr], timeout=3000)
+        res, r = ec.validate_lite(tr, tr + ".result.json")
+        states += r["distinct"]; trans += r["generated"]
+        wide.append({"cfg": cfgname, "events_validated": res["events"], "checked": res["stats"], "violations": len(res["viol"])})
+        for v in res["viol"][:2]:
+            verdict.violation(f"{v['kind']} node={v['n']} got={v['got']} want={v['want']} (fan-in 1100 over {cfgname}; "
+                              f"{len(res['viol'])} in total)",
+                              {"property": PID, "violation": v, "origin": f"fan-in 1100 over {cfgname}", "lite": True})
 
     traces.append((sched_tr, "normal", "EngineConcGen schedule replay"))
     events = 0
@@ -190,6 +201,7 @@ def run(tier, seed):
                     {"single_flight_schedule": scases[0] if scases else None},
                     {"engine_run_plan": [p[:3] for p in plans]}],
         "backward_edge_set": bes_info,
+        "fan_in_1100": wide,
         "single_flight_protocol_model": single_flight_model,
         "single_flight_schedule_replay": sched_info,
         "engine_runs": nruns,
